@@ -154,6 +154,19 @@ pub const EXEMPLARS: &[&str] = &[
     "S: A;\nterminals\nA: /(?<n>a)(?<n>b)/;\n",
     "S: A;\nterminals\nA: /*a/;\n",
     "S: A;\nterminals\nA: /a|*/;\n",
+    // not a regex as written, a regex inside the generated anchor group ^(?:..)
+    "S: A;\nterminals\nA: /aa)|(?:bb/;\n",
+    "S: A B;\nterminals\nA: /a)(b/;\nB: /b)|(?:a|(c/;\n",
+    // production kinds given in the meta-data of the rule (inherited by its productions) that are no identifiers
+    "S: Decl;\nDecl {v1.decl}: 'let' Name ';';\nterminals\nName: /\\w+/;\n",
+    "S: Value;\nValue {match}: Name | Number {Num};\nterminals\nName: /[a-z]+/;\nNumber: /\\d+/;\n",
+    "S: Value+;\nValue {left, 2, a-b}: Name {fn} | Number {Num};\nterminals\nName: /[a-z]+/;\nNumber: /\\d+/;\n",
+    // a rule with the name of a terminal; one name twice among the fields of a production
+    "A: 'x' B;\nterminals\nA: 'x';\nB: 'b';\n",
+    "S: Tb A;\nTb: Ta;\nA: Tb;\nterminals\nTa: 'a';\nTb: 'b';\n",
+    "S: x=A x=B;\nterminals\nA: /a/;\nB: /b/;\n",
+    "S: foo=Bar Foo;\nterminals\nBar: /a/;\nFoo: /b/;\n",
+    "S: Foo FOO | Foo;\nterminals\nFoo: /a/;\nFOO: /b/;\n",
     // reserved / implicit names in the separator position of a repetition and other odd separators
     "S: A+[STOP];\nA: Ta;\nterminals\nTa: 'a';\n",
     "S: A*[STOP] Tb;\nA: Ta;\nterminals\nTa: 'a';\nTb: 'b';\n",
@@ -403,7 +416,9 @@ pub fn judge(text: &str, spec: &SetSpec, origin: &str, wd: &Workdir, rep: &mut R
                 for t in &d.grammar.terminals {
                     if let rustemo_compiler::verif::VRecognizer::Regex(r) = &t.recognizer {
                         let anchored = format!("^(?:{})", r);
-                        let err = if spec.fancy { fancy_regex::Regex::new(&anchored).err().map(|e| e.to_string()) } else { regex::Regex::new(&anchored).err().map(|e| e.to_string()) };
+                        // as written, too: `aa)|(?:bb` is no regex, yet inside the anchor group it reads ^(?:aa)|(?:bb), valid
+                        // and half unanchored (tokens that are not at their span, C13) - a problem the compiler owes an error for
+                        let err = [r.as_str(), anchored.as_str()].into_iter().find_map(|re| if spec.fancy { fancy_regex::Regex::new(re).err().map(|e| e.to_string()) } else { regex::Regex::new(re).err().map(|e| e.to_string()) });
                         rep.count("accepted_regex_terminals_checked", 1);
                         if let Some(e) = err {
                             rep.violation("C16", &sig("invalid-regex"), &format!("compiler wrote a parser for terminal {}: /{}/ although {} refuses that regex ({}): the parser panics at its first use", t.name, r, if spec.fancy { "fancy_regex" } else { "regex" }, e.lines().last().unwrap_or("").trim()), case());
